@@ -98,6 +98,22 @@ def run(ctx, P):
             if part != "range":
                 R("stored-value-is-rounded", is_rounded(ctx, x, rv), f"candle {i} field {f}: {x!r}")
     if part == "rounded":
+        # every writer of readings rounds the same way: single-index and range recomputation, recalculate, live appends
+        def recheck(tag, series):
+            for i, r in enumerate(series):
+                for f, x in (r.items() if isinstance(r, dict) else [(None, r)]):
+                    R(f"stored-value-is-rounded[{tag}]", is_rounded(ctx, x, rv), f"candle {i} field {f}: {x!r}")
+        ind.calculate_index(n - 1)
+        ind.calculate_index(-2)
+        recheck("calculate_index(last), calculate_index(-2)", ind.as_list())
+        ind.calculate_index(0, n)
+        recheck("calculate_index(0, n)", ind.as_list())
+        ind.recalculate()
+        recheck("recalculate", ind.as_list())
+        live = build(name, kw, candles=[], **common)
+        for c in clone(cs):
+            live.append(c)
+        recheck("live appends", live.as_list())
         return
     if part == "definition-rv":
         from harness.defs import expected
